@@ -112,6 +112,8 @@ def _table(ctx: Ctx):
         ("F19", lambda: structure.r17_conform(ctx, rules=("F19a", "F19b", "F19c"))),
         ("F20", lambda: sqlemit.r02_5_emission_coverage(ctx, rule="F20")),
         ("F22", lambda: classlevel.r_no_swallowed_exceptions(ctx, "F22")),
+        ("F23", lambda: classlevel.r_init_order(ctx, "F23")),
+        ("F24", lambda: classlevel.r_no_tag_ordering(ctx, "F24")),
         ("R15.1", lambda: structure.r15_1_rewriters_stop_at_locked(ctx)),
     ]
 
